@@ -96,14 +96,14 @@ class LcdHarness(Harness):
 
   # quick tier: (doc, layouts, cfgs, #writing modes r1, #displayAlign r1, #writing modes r2)
   QUICK = [
-    (0, range(8), range(4), 5, 4, 1),
-    (1, (0, 1), (0, 3), 3, 2, 2),
+    (0, range(8), (0, 1, 2, 7), 5, 4, 1),
+    (1, (0, 1), (0, 1, 4, 7), 3, 2, 2),
     (1, (3,), (0,), 1, 1, 2),
     (2, (0, 1), (0,), 1, 1, 1),
-    (3, (0,), (0, 1), 1, 1, 1),
-    (4, (0, 3), range(4), 2, 2, 1),
-    (5, (0, 7), (0, 3), 1, 1, 1),
-    (6, (0, 3), (0, 3), 1, 1, 1),
+    (3, (0,), (0, 5), 1, 1, 1),
+    (4, (0, 3), (0, 1, 4, 7), 2, 2, 1),
+    (5, (0, 7), (0, 7), 1, 1, 1),
+    (6, (0, 3), (0, 7), 1, 1, 1),
   ]
 
   def partitions(self, tier):
@@ -116,7 +116,7 @@ class LcdHarness(Harness):
       return out
     for d in range(len(DOCS)):
       for lay in range(len(LAYOUTS)):
-        for cfg in range(4):
+        for cfg in range(8):
           out.append({"doc": d, "layout": lay, "cfg": cfg, "nwm": 5, "nda": 4, "nwm2": 2})
     return out
 
@@ -138,8 +138,15 @@ class LcdHarness(Harness):
     cfgi = params["cfg"]
     sa = ex.integer("safe_area", 0, 30)
     color = styles.NamedColors.yellow.value if cfgi & 1 else None
-    bg = styles.NamedColors.navy.value if cfgi & 1 else None
+    bg = styles.NamedColors.navy.value if cfgi & 4 else None
     preserve = bool(cfgi & 2)
+    own_color = {}
+    if doc.get_body() is not None:
+      for e_ in doc.get_body().dfs_iterator():
+        if isinstance(e_, model.Span) and e_.get_style(SP.Color) is not None:
+          for c_ in e_:
+            if isinstance(c_, model.Text):
+              own_color[c_.get_text()] = e_.get_style(SP.Color)
     if doc.get_body() is not None:
       for p in doc.get_body().dfs_iterator():
         if isinstance(p, model.P):
@@ -149,7 +156,8 @@ class LcdHarness(Harness):
     had_steps = any(True for n in info.nodes + info.regions if n.elem is not None and list(n.elem.iter_animation_steps()))
     stags = sorted(tags)
     had_ref = [n for n in info.nodes if n.elem is not None and n.kind not in ("text", "br") and n.elem.get_region() is not None]
-    _, exc = call(ex, LCDDocFilter(cfg).process, doc)
+    flt = LCDDocFilter(cfg)
+    _, exc = call(ex, flt.process, doc)
     if exc:
       ex.fail("C18:lcd-filter-raises", {"site": exc[1], "exc": type(exc[0]).__name__, "tags": stags})
       ex.fail("C16:filter-succeeds", {"site": exc[1], "exc": type(exc[0]).__name__, "tags": stags})
@@ -230,14 +238,19 @@ class LcdHarness(Harness):
       for e in reg.dfs_iterator():
         if isinstance(e, model.Span) and color is not None:
           ex.prove(e.get_style(SP.Color) == color, "C16:configured-color", {"tags": stags})
+        if isinstance(e, model.Span) and color is None:
+          # no colour configured: the text keeps the colour the source gave it
+          for c_ in e:
+            if isinstance(c_, model.Text) and c_.get_text() in own_color:
+              ex.prove(e.get_style(SP.Color) == own_color[c_.get_text()], "C16:source-color-kept", {"bg_configured": bg is not None, "tags": stags})
         if isinstance(e, model.P):
           if bg is not None:
             ex.prove(e.get_style(SP.BackgroundColor) == bg, "C16:configured-bg-color", {"tags": stags})
           want = styles.TextAlignType.end if preserve else styles.TextAlignType.center
           ex.prove(e.get_style(SP.TextAlign) is want, "C16:text-align", {"preserve": preserve, "tags": stags})
-    # (9) idempotent
+    # (9) idempotent, also when the same filter object is used again (it must not carry state from one call to the next)
     fp1 = doc_fingerprint(doc)
-    _, exc = call(ex, LCDDocFilter(cfg).process, doc)
+    _, exc = call(ex, (flt if (cfgi != 0 or ex.boolean("reuse_filter_object")) else LCDDocFilter(cfg)).process, doc)
     if exc:
       ex.fail("C16:filter-succeeds", {"site": exc[1], "exc": type(exc[0]).__name__, "tags": stags + ["second-pass"]})
       return
